@@ -238,6 +238,18 @@ def main():
         loops = 1
     elif re.search(r"\bwhile\b", carm):
         raise Shape("client.rs 'c'|'f' arm: unexpected while loop")
+    # after the reply: the server is released only if it is not in COPY mode again (a second COPY of the same Query)
+    tailc = carm[lm.end():] if lm else carm
+    rel = re.search(r"if\s*!\s*server\.in_transaction\(\)\s*\{", tailc)
+    release_checks_copy = 0
+    if rel:
+        rb, _ = block_at(tailc, rel.end() - 1)
+        if re.search(r"if\s+self\.transaction_mode\s*&&\s*!\s*server\.in_copy_mode\(\)\s*\{\s*break\s*;", rb):
+            release_checks_copy = 1
+        elif not re.search(r"if\s+self\.transaction_mode\s*\{\s*break\s*;", rb):
+            raise Shape("client.rs 'c'|'f' arm: release condition changed")
+    else:
+        raise Shape("client.rs 'c'|'f' arm: release block not found")
     # CopyDone/CopyFail outside COPY mode: dropped (buffer cleared, nothing sent)?
     g = re.match(r"\s*if\s*!\s*server\.in_copy_mode\(\)\s*\{", carm)
     outside_dropped = 0
@@ -282,7 +294,9 @@ def main():
          "(* 'c' | 'f' arm: the reply is read in `loop { recv; forward; if !is_data_available() { break } }` (%d);" % loops,
          "   CopyDone/CopyFail while the server is not in COPY mode are dropped (%d); a Sync while it is, is dropped (%d) *)" % (outside_dropped, sync_dropped),
          "Definition copy_done_loops : bool := %s.\nDefinition copy_done_outside_copy_dropped : bool := %s.\nDefinition sync_in_copy_dropped : bool := %s.\n"
-         % tuple("true" if x else "false" for x in (loops, outside_dropped, sync_dropped))]
+         % tuple("true" if x else "false" for x in (loops, outside_dropped, sync_dropped)),
+         "(* 'c' | 'f' arm: the server is kept after the reply while it is in COPY mode again (628c2ec) *)",
+         "Definition copy_done_release_checks_copy_mode : bool := %s.\n" % ("true" if release_checks_copy else "false")]
     open(out, "w").write("\n".join(v))
 
 
